@@ -461,3 +461,152 @@ def u_unit_pairs(pairs):
         for op in CMP:
             out.append(("unit-cmp", _f(["a: Qint[%d]" % wl, "b: Qint[%d]" % wr], "bool", "return a %s b" % op)))
     return out
+
+
+# ---------------------------------------------------------------- U-prog: typed random programs
+class _PG:
+    """deterministic generator of well-typed multi-statement programs over bool / Qint[w] /
+    tuples, using every statement kind of the documented subset"""
+
+    def __init__(self, rnd):
+        self.r = rnd
+
+    def int_expr(self, env, d, maxw=4):
+        r = self.r
+        ints = [v for v, t in env.items() if t[0] == "int" and t[1] <= maxw]
+        if d == 0 or r.random() < 0.25:
+            c = r.random()
+            if ints and c < 0.75:
+                return r.choice(ints)
+            return str(r.choice([0, 1, 2, 3, 5, 6, 7]))
+        k = r.choice(["+", "+", "-", "^", "&", "|", "<<", ">>", "ite", "*c", "idx"])
+        if k == "ite":
+            return "(%s if %s else %s)" % (self.int_expr(env, d - 1, maxw), self.bool_expr(env, d - 1), self.int_expr(env, d - 1, maxw))
+        if k in ("<<", ">>"):
+            return "(%s %s %d)" % (self.int_expr(env, d - 1, maxw), k, r.choice([0, 1, 1, 2]))
+        if k == "*c":
+            return "(%s * %d)" % (self.int_expr(env, d - 1, 2), r.choice([2, 3, 6]))
+        if k == "idx":
+            tups = [v for v, t in env.items() if t[0] == "tupi"]
+            if tups:
+                v = r.choice(tups)
+                return "%s[%d]" % (v, r.randrange(env[v][1]))
+            return self.int_expr(env, d - 1, maxw)
+        return "(%s %s %s)" % (self.int_expr(env, d - 1, maxw), k, self.int_expr(env, d - 1, maxw))
+
+    def bool_expr(self, env, d):
+        r = self.r
+        bools = [v for v, t in env.items() if t[0] == "bool"]
+        ints = [v for v, t in env.items() if t[0] == "int"]
+        if d == 0 or r.random() < 0.2:
+            c = r.random()
+            if bools and c < 0.6:
+                return r.choice(bools)
+            if ints:
+                v = r.choice(ints)
+                return "%s[%d]" % (v, r.randrange(env[v][1]))
+            return r.choice(["True", "False"])
+        k = r.choice(["and", "or", "not", "^", "cmp", "cmp", "==", "ite"])
+        if k == "not":
+            return "(not %s)" % self.bool_expr(env, d - 1)
+        if k == "ite":
+            return "(%s if %s else %s)" % (self.bool_expr(env, d - 1), self.bool_expr(env, d - 1), self.bool_expr(env, d - 1))
+        if k == "cmp":
+            return "(%s %s %s)" % (self.int_expr(env, d - 1), r.choice(["<", "<=", ">", ">=", "==", "!="]), self.int_expr(env, d - 1))
+        if k == "==":
+            return "(%s %s %s)" % (self.bool_expr(env, d - 1), r.choice(["==", "!="]), self.bool_expr(env, d - 1))
+        return "(%s %s %s)" % (self.bool_expr(env, d - 1), k, self.bool_expr(env, d - 1))
+
+    def stmt(self, env, depth, ind):
+        r = self.r
+        k = r.choice(["assign", "assign", "aug", "if", "for", "swap", "alias"]) if depth < 2 else r.choice(["assign", "aug"])
+        pad = "    " * ind
+        ints = [v for v, t in env.items() if t[0] == "int" and not v.startswith("i")]
+        bools = [v for v, t in env.items() if t[0] == "bool"]
+        loc = [v for v in ints + bools if env[v][-1] == "local"]
+        if k == "assign":
+            if r.random() < 0.5 or not loc:
+                nm = "v%d" % len(env)
+                if r.random() < 0.6:
+                    env[nm] = ("int", 4, "local")
+                    return [pad + "%s = %s" % (nm, self.int_expr(env_without(env, nm), 2))]
+                env[nm] = ("bool", "local")
+                return [pad + "%s = %s" % (nm, self.bool_expr(env_without(env, nm), 2))]
+            v = r.choice(loc)
+            e = self.int_expr(env, 2) if env[v][0] == "int" else self.bool_expr(env, 2)
+            return [pad + "%s = %s" % (v, e)]
+        if k == "aug" and [v for v in loc if env[v][0] == "int"]:
+            v = r.choice([v for v in loc if env[v][0] == "int"])
+            return [pad + "%s %s= %s" % (v, r.choice(["+", "+", "-", "^", "|", "&"]), self.int_expr(env, 1))]
+        if k == "if" and loc:
+            body = []
+            for _ in range(r.randint(1, 2)):
+                v = r.choice(loc)
+                e = self.int_expr(env, 1) if env[v][0] == "int" else self.bool_expr(env, 1)
+                body.append(pad + "    %s = %s" % (v, e))
+            out = [pad + "if %s:" % self.bool_expr(env, 1)] + body
+            if r.random() < 0.5:
+                v = r.choice(loc)
+                e = self.int_expr(env, 1) if env[v][0] == "int" else self.bool_expr(env, 1)
+                out += [pad + "else:", pad + "    %s = %s" % (v, e)]
+            return out
+        if k == "for" and [v for v in loc if env[v][0] == "int"]:
+            v = r.choice([v for v in loc if env[v][0] == "int"])
+            iv = "i%d" % depth
+            env2 = dict(env)
+            env2[iv] = ("int", 2, "loop")
+            body = [pad + "    %s %s= %s" % (v, r.choice(["+", "^", "-"]), self.int_expr(env2, 1))]
+            env[iv] = ("int", 2, "loop")
+            return [pad + "for %s in range(%d):" % (iv, r.choice([2, 3]))] + body
+        if k == "swap":
+            same = [v for v in loc if env[v][0] == "int"]
+            if len(same) >= 2:
+                a, b = r.sample(same, 2)
+                return [pad + "%s, %s = %s, %s" % (a, b, b, self.int_expr(env, 1))]
+        if k == "alias" and ints:
+            nm = "w%d" % len(env)
+            src = r.choice(ints)
+            env[nm] = ("int", env[src][1], "local")
+            return [pad + "%s = %s" % (nm, src)]
+        nm = "v%d" % len(env)
+        env[nm] = ("int", 4, "local")
+        return [pad + "%s = %s" % (nm, self.int_expr(env_without(env, nm), 1))]
+
+
+def env_without(env, nm):
+    return {k: v for k, v in env.items() if k != nm}
+
+
+def u_prog_random(n=300, seed=20260923):
+    rnd = random.Random(seed)
+    out = []
+    for i in range(n):
+        g = _PG(rnd)
+        env = {}
+        args = []
+        for k in range(rnd.randint(1, 3)):
+            nm = "abc"[k]
+            t = rnd.choice(["bool", "int2", "int2", "int3", "int4", "tup"])
+            if t == "bool":
+                env[nm] = ("bool", "arg")
+                args.append("%s: bool" % nm)
+            elif t == "tup":
+                env[nm] = ("tupi", 2, "arg")
+                args.append("%s: Tuple[Qint[2], Qint[2]]" % nm)
+            else:
+                w = int(t[3:])
+                env[nm] = ("int", w, "arg")
+                args.append("%s: Qint[%d]" % (nm, w))
+        body = []
+        first = "v0"
+        env[first] = ("int", 4, "local")
+        body.append("    %s = %s" % (first, g.int_expr(env_without(env, first), 1)))
+        for _ in range(rnd.randint(1, 4)):
+            body += g.stmt(env, 1, 1)
+        if rnd.random() < 0.35:
+            ret, e = "bool", g.bool_expr(env, 2)
+        else:
+            ret, e = "Qint[%d]" % rnd.choice([2, 4, 4, 6]), g.int_expr(env, 2)
+        body.append("    return %s" % e)
+        out.append(("prog-rand", "def prog(%s) -> %s:\n%s\n" % (", ".join(args), ret, "\n".join(body))))
+    return out
